@@ -261,7 +261,8 @@ TIE = {
            "(for every memory, size, pointer and direction: exactly the 32-bit words the type and version name are swapped in place, defined iff they lie inside "
            "the object, to-network then to-host is the identity - CLinkFooter)",
     "C17": "rtr_check_interval_range, apply_interval_value, rtr_check_interval_option (with the frame condition on struct rtr_socket), rtr_get/set_interval_mode, "
-           "rtr_wait_for_sync (timeout = max 0 (last_update + refresh - now)) and tr_recv_all (the deadline is fixed by the first clock reading, never re-armed)",
+           "rtr_wait_for_sync (timeout = max 0 (last_update + refresh - now)), tr_recv_all (the deadline is fixed by the first clock reading, never re-armed) "
+           "and rtr_init (accepts exactly the RFC 8210 ranges - the acceptance condition of the C text is C17.InRange - and writes exactly the listed fields)",
     "C05": "the state machine's control skeleton rtr_fsm_start (query choice in CONNECTING / RESET), rtr_stop, the query senders, rtr_handle_cache_response_pdu "
            "and rtr_sync (request_session_id is cleared only after the payload was stored), rtr_send_pdu and tr_send_all (a query is handed to the transport "
            "once, converted, and sent in contiguous chunks - no restart at byte 0)",
